@@ -95,6 +95,17 @@ fn main() {
         Some("rw") => cmd_rw(&args[1..]),
         Some("gen") => cmd_gen(&args[1..]),
         Some("oneshot") => props_more::oneshot_main(),
+        // debugging aid: rewrite a file with the default configuration and show what the eraser makes of it
+        Some("erase") => {
+            let src = std::fs::read_to_string(&args[1]).expect("read input");
+            let cfg = verif::cfggen::info_from_json(&default_cfg());
+            let a = verif::analysis::analyze(&src, &cfg, "/app/src/t.js");
+            match &a.erased {
+                Some(Ok(er)) => { println!("ROUND TRIP OK; sites:"); for s in &a.sites { println!("  {:?}", s); } let _ = er; 0 }
+                Some(Err(e)) => { println!("ERASE ERROR {}: {}", e.sig, e.detail); 1 }
+                None => { println!("not modified / not parsed: {:?}", a.src.as_ref().err()); 0 }
+            }
+        }
         Some("check") => {
             let id = args.get(1).cloned().unwrap_or_default();
             let tier = args.get(2).cloned().unwrap_or_else(|| "quick".into());
